@@ -76,8 +76,8 @@ plan("C17", "exploration",
      {"call:apply": 10}, "client futures were observed (and, for the shutdown family, calls raced with and followed Shutdown)",
      {"quick": {"after-shutdown-call": 100}, "thorough": {"after-shutdown-call": 500}})
 plan("C18", "exploration",
-     [sim("notify", 40), sim("random", 10), sim("elections", 10)],
-     [sim("notify", 330), sim("random", 100), sim("elections", 130), sim("storefail", 50)],
+     [sim("notify", 34), sim("random", 8), sim("elections", 8), sim("notifyblock", 10)],
+     [sim("notify", 330), sim("random", 100), sim("elections", 130), sim("storefail", 50), sim("notifyblock", 80)],
      {"notify": 2}, "leadership notifications were delivered",
      {"quick": {"notify": 150, "leader-sample-checked": 100}, "thorough": {"notify": 1000}})
 plan("C20", "exploration",
